@@ -85,6 +85,16 @@ class Subset(Harness):
             inp["draw"] = Arr("int64", draw)
         return inp
 
+    def probes(self, inp):
+        # rows are told apart through tuples / sets in the code under test, whose hashing is not modelled (every symbolic value
+        # hashes to 0, which is sound for dict / set semantics only): observe values whose CPython hashes coincide
+        if self.method != "unique" or self.kind not in ("i", "f"): return []
+        X = inp["data"].cols["x"].cells
+        if len(X) < 2: return []
+        def is_(c, v): return (c == BV(v)) if self.kind == "i" else z3.fpEQ(c, symx.fpval(float(v)))
+        pairs = [(i, j) for i in range(len(X)) for j in range(len(X)) if i != j]
+        return [("keys -1 and -2 (equal CPython hashes)", z3.Or([z3.And(is_(X[i], -1), is_(X[j], -2)) for i, j in pairs])),
+                ("keys 0 and 2**61 - 1 (equal CPython hashes)", z3.Or([z3.And(is_(X[i], 0), is_(X[j], 2**61 - 1)) for i, j in pairs]))]
     def regions(self, inp):
         if self.method != "unique": return {}
         regs = {}
